@@ -105,6 +105,23 @@ def entry_options(ctx):
                 got = "OK"
             except Exception as e:  # noqa: BLE001
                 got = "ERR:" + err_kind(e)
+            # the module-object entry point is the same request
+            import types as _types
+
+            from pytestarch import get_evaluable_architecture_for_module_objects
+
+            rm, mm = _types.ModuleType("r"), _types.ModuleType("m")
+            rm.__file__ = p.path("proj") + "/__init__.py"
+            mm.__file__ = p.path("proj/sub" if inside else "other") + "/__init__.py"
+            try:
+                get_evaluable_architecture_for_module_objects(rm, mm, **kw)
+                got_obj = "OK"
+            except Exception as e:  # noqa: BLE001
+                got_obj = "ERR:" + err_kind(e)
+            if got_obj != got:
+                ctx.violations.append({"kind": "property-violation",
+                                       "what": f"the module-object entry point answers the request with {got_obj}, the path entry point with {got}",
+                                       "options": kw, "module_path_inside_root": bool(inside)})
             m = parse_answer(run_driver([f"opts ex={ex} rex={rex} eex={eex} reex={reex} xx={xx} inside={inside}"])[0]).get("M", "?")
             invalid = (ex and rex) or (eex and reex) or (xx and (eex or reex)) or not inside
             if invalid:
